@@ -1,0 +1,34 @@
+//go:build verif
+
+package imagemeta
+
+import (
+	"bufio"
+	"bytes"
+	"sync"
+
+	"github.com/evanoberholster/imagemeta/exif2"
+	"github.com/evanoberholster/imagemeta/isobmff"
+	"github.com/evanoberholster/imagemeta/jpeg"
+)
+
+// VerifResetState restores every pool and cache of the decoding packages to the state of a
+// process that has decoded nothing yet. Quiescent points only.
+func VerifResetState() {
+	readerPool = sync.Pool{New: func() interface{} { return bufio.NewReaderSize(nil, 4*1024) }}
+	exif2.VerifResetState()
+	jpeg.VerifResetPools()
+	isobmff.VerifResetPools()
+}
+
+// VerifPoisonReaders makes every bufio.Reader pool hand out readers whose internal buffer is
+// pre-filled with fill.
+func VerifPoisonReaders(fill byte) {
+	readerPool = sync.Pool{New: func() interface{} {
+		br := bufio.NewReaderSize(bytes.NewReader(bytes.Repeat([]byte{fill}, 4*1024)), 4*1024)
+		_, _ = br.Peek(4 * 1024)
+		return br
+	}}
+	jpeg.VerifPoisonPools(fill)
+	isobmff.VerifPoisonPools(fill)
+}
